@@ -29,8 +29,17 @@ TRANSIENT = {
     'op:2003',   # cannot (re)connect
     'op:1040',   # too many connections
 }
+# base:0 = the task running the operation is cancelled (asyncio.CancelledError) while the statement is in flight (not yet executed by the
+# server); base:1 = the statement raises some other BaseException that is not an Exception.  Neither is a MySQL error: they are the other
+# ways an attempt can fail, and the atomicity clause ("no ... failed attempt leaves partial writes behind") covers them.
+BASE = ['base:0', 'base:1']
 OTHER = ['integ:1062', 'prog:1064', 'op:1644', 'op:1054', 'op:1317', 'op:1206', 'op:1105', 'data:1406', 'nosup:1235',
-         'int:1213', 'int:1040', 'integ:1205', 'prog:1213', 'iface:0', 'other:0']
+         'int:1213', 'int:1040', 'integ:1205', 'prog:1213', 'iface:0', 'other:0'] + BASE
+
+
+class Abort(BaseException):
+    """a BaseException outside the Exception hierarchy that asyncio treats like any other (unlike KeyboardInterrupt / SystemExit, which
+    Task.__step re-raises into the event loop)"""
 ERRS = sorted(TRANSIENT) + OTHER
 
 SCHEMA = """
@@ -60,19 +69,24 @@ class C27(Prop):
                   '(only_transient_retried) and each of them under the class PyMySQL 1.1.2 raises it as, 1205 under both classes '
                   '(transient_list_retried, lock_wait_timeout_retried_both_classes); statements issued with a query_name run inside '
                   'PrometheusSQLTimer, whose __aexit__ result is re-read from gear/gear/metrics.py on every run, and behave exactly like plain ones '
-                  '(instrumented_error_propagates, query_name_transparent, run_query_name_transparent). The model is tied to the real @transaction wrapper by runs '
+                  '(instrumented_error_propagates, query_name_transparent, run_query_name_transparent); an attempt ended by a BaseException '
+                  '(task cancellation while a statement is in flight, GeneratorExit, ...) is rolled back and not retried, and is all or nothing: '
+                  'only a cancellation arriving after the COMMIT was sent leaves the whole body applied (cancelled_all_or_nothing, no_partial_writes). The model is tied to the real @transaction wrapper by runs '
                   'with a fault at every statement index x every error on every run.')
     level_note = ('Partial: the server side is the fake pool + minisql (rollback/commit semantics and what the server does on deadlock, lock wait '
                   'timeout and connection loss are assumptions listed below); PyMySQL error classes come from a shim reproducing 1.1.2 error_map; '
                   'interleaving of concurrent transactions and the behaviour of real aiomysql/MySQL beyond the listed assumptions are outside the claim.')
-    budget = {'quick': 4000, 'thorough': 40000}
+    budget = {'quick': 4400, 'thorough': 40000}
     search_budget = {'quick': 3000, 'thorough': 60000}
     rule = ('case = (initial rows, body of upsert/insert/update/select statements over two tables each issued through its Transaction.execute_* '
             'method with or without a query_name, run inside one @transaction function or as a single Database.execute_* call, fault script per '
             'attempt = statement index x error); every run contains the exhaustive layer {12 fixed bodies: plain, all-instrumented, mixed with reads, '
             'single-statement Database calls} x {every statement index incl. acquire, START TRANSACTION, COMMIT and one past} x {every (class, code) of '
             'the error list} plus execute_many batches of {1, 2, 999, 1000, 1001, 2500} argument rows (single Database.execute_many calls with a fault at every statement of the 1st, 2nd and 3rd '
-            'transaction the call might open, and inside @transaction bodies) plus runs of L consecutive transient failures of one operation for L in {1..12, 20, 50} (thorough: also 100, 200): the same error at the same statement every time for '
+            'transaction the call might open, and inside @transaction bodies) plus the other ways an attempt fails: the task running the operation cancelled while statement i is in flight (base:0) and a BaseException '
+            'raised by statement i (base:1) are error codes of the same exhaustive layer; cancellation of the task at EVERY suspension the real run '
+            'exhibits (statement round trips, shielded commit / rollback, back-off sleeps) for 6 bodies incl. ones with injected errors, and at a random '
+            'suspension in 8 % of the random cases (oracle only, no model line); plus runs of L consecutive transient failures of one operation for L in {1..12, 20, 50} (thorough: also 100, 200): the same error at the same statement every time for '
             'every transient error, errors and positions cycling, and a run ended by a non-transient error; 10 % of the random cases carry 7-16 fault scripts; '
             'plus random multi-attempt sequences (half of the faults aimed at body statements, half of the statements instrumented); '
             'non-trivial = at least one injected fault fired; distinct by full case')
@@ -95,6 +109,11 @@ class C27(Prop):
         'a connection released with an open transaction is closed by the pool and rolled back by the server (aiomysql behaviour)',
         'the gear.database logger is enabled at DEBUG and WARNING (a third of the cases each), INFO (a sixth) or silenced (a sixth) with a handler that formats and '
         'discards every record; root-logger configuration of a deployment (JSON formatter) is not reproduced',
+        'the atomicity clause ("no retried or failed attempt leaves partial writes behind") is read as covering every way an attempt can fail, '
+        'not only the injected MySQL errors of the quantifier text: cancellation of the calling task and other BaseExceptions are failures too',
+        'every statement of the fake pool is one round trip (the task yields to the event loop once between the fault hook and the execution of the '
+        'statement); a cancellation requested at statement i is delivered before the server executes it; KeyboardInterrupt / SystemExit (which asyncio '
+        're-raises into the event loop) are represented by another BaseException subclass',
         'faults are injected at: taking a connection, START TRANSACTION, every body statement, COMMIT -- not at the ROLLBACK the client issues after a failure',
     ]
 
@@ -168,6 +187,7 @@ end HailVerif.Generated.SqlTimer
         self.sink = Sink()
         self.sink.setFormatter(logging.Formatter('%(asctime)s %(levelname)s %(name)s %(filename)s:%(lineno)s %(message)s'))
         self._probe = None
+        self._stepped = {}
 
     def make_exc(self, name):
         cls, code = name.split(':')
@@ -175,12 +195,18 @@ end HailVerif.Generated.SqlTimer
         e = self.err
         if cls == 'other':
             return ValueError('injected')
+        if cls == 'base':
+            return Abort('injected')
         klass = {'op': e.OperationalError, 'int': e.InternalError, 'integ': e.IntegrityError, 'prog': e.ProgrammingError,
                  'data': e.DataError, 'nosup': e.NotSupportedError, 'iface': e.InterfaceError}[cls]
         return klass(code, f'injected {name}')
 
     def name_of(self, exc):
         e = self.err
+        if isinstance(exc, asyncio.CancelledError):
+            return 'base:0'
+        if isinstance(exc, Abort):
+            return 'base:1'
         for cls, klass in (('op', e.OperationalError), ('int', e.InternalError), ('integ', e.IntegrityError), ('prog', e.ProgrammingError),
                            ('data', e.DataError), ('nosup', e.NotSupportedError), ('iface', e.InterfaceError)):
             if type(exc) is klass:
@@ -239,6 +265,24 @@ end HailVerif.Generated.SqlTimer
                         yield {**fx, 'scripts': [None, None, [idx, err]]}
             yield {'init': {'100': 1}, 'body': [['w', 100, 1], ['m', 100, 1, 1 - i % 2, size], ['r', 101, 0]], 'scripts': [[N_PRE + 1, 'op:1205'], [N_PRE + 3, 'op:1040']]}
         yield from self.long_runs(self.RUN_LENGTHS)
+        yield from self.cancel_sweep()
+
+    CANCEL_BODIES = [
+        {'init': {'1': 5}, 'body': [['u', 1, 2], ['u', 107, 1, 1], ['w', 1, 10]], 'scripts': []},
+        {'init': {'1': 5, '100': 1}, 'body': [['i', 2, 7, 1], ['r', 2, 0], ['w', 100, -3], ['a', 100, 0, 1]], 'scripts': []},
+        # cancellation combined with injected errors: during the rollback after a deadlock, the back-off sleep, the second attempt
+        {'init': {'1': 5}, 'body': [['w', 1, 1], ['u', 2, 3, 1]], 'scripts': [[N_PRE + 1, 'op:1213'], [N_PRE + 2, 'op:1205']]},
+        {'init': {'1': 5}, 'body': [['w', 1, 1], ['u', 2, 3]], 'scripts': [[N_PRE + 1, 'op:1054']]},
+        {'init': {'1': 5}, 'body': [['w', 1, 10, 1]], 'mode': 'db', 'scripts': []},
+        {'init': {'1': 5}, 'body': [['m', 1, 2, 0, 1001]], 'mode': 'db', 'scripts': [[N_PRE + 1, 'op:2013']]},
+    ]
+
+    def cancel_sweep(self):
+        """the task running the operation is cancelled at its k-th suspension, for EVERY k the real run exhibits (and one past)"""
+        for fx in self.CANCEL_BODIES:
+            total = self._run({**fx, 'log': 'off'})['suspensions']
+            for k in range(1, total + 2):
+                yield {**fx, 'cancel_at': k}
 
     # lengths of runs of CONSECUTIVE transient failures of one operation (the property puts no bound on the number of retries)
     RUN_LENGTHS = list(range(1, 13)) + [20, 50]
@@ -289,6 +333,8 @@ end HailVerif.Generated.SqlTimer
                 idx = rng.randint(N_PRE, n + N_PRE - 1) if n and rng.random() < 0.5 else rng.randint(0, n + N_PRE + 1)
                 scripts.append([idx, err])
         c = {'init': init, 'body': body, 'scripts': scripts, 'log': rng.choice(self.LOGS)}
+        if rng.random() < 0.08:
+            c['cancel_at'] = rng.randint(1, 4 + 3 * len(body) + 6 * len(scripts))
         if db_mode:
             c['mode'] = 'db'
         return c
@@ -312,6 +358,8 @@ end HailVerif.Generated.SqlTimer
         body = ' '.join(['n'] * N_PRE + [f'{st[0]}:{st[1]}:{st[2]}' + (f':{st[4]}' if st[0] == 'm' else '') + (':q' if len(st) > 3 and st[3] else '')
                                          for st in c['body']])
         scripts = ' '.join('-' if s is None else f'{s[0]}:{s[1]}' for s in c['scripts'])
+        if c.get('cancel_at'):
+            return []
         return [f'{init} | {body} | {scripts}']
 
     # -- implementation ------------------------------------------------------------------------------
@@ -343,7 +391,7 @@ end HailVerif.Generated.SqlTimer
         for k, v in c['init'].items():
             db.load_rows(table_of(int(k)), [{'k': int(k), 'v': v}])
         scripts = c['scripts']
-        state = {'attempt': 0, 'idx': 0, 'fired': [], 'commits': 0}
+        state = {'attempt': 0, 'idx': 0, 'fired': [], 'commits': 0, 'task': None, 'suspensions': 0}
 
         def hook(i, sql):
             exc = hook1(i, sql)
@@ -363,6 +411,11 @@ end HailVerif.Generated.SqlTimer
             if a - 1 < len(scripts) and scripts[a - 1] is not None and scripts[a - 1][0] == idx \
                     and not any(f[0] == a for f in state['fired']):
                 state['fired'].append((a, idx, scripts[a - 1][1]))
+                if scripts[a - 1][1] == 'base:0':
+                    # cancellation of the task that runs the operation, delivered at this statement's round trip (fakepool yields to
+                    # the event loop between consulting this hook and executing the statement)
+                    state['task'].cancel()
+                    return None
                 return self.make_exc(scripts[a - 1][1])
             return None
 
@@ -425,27 +478,40 @@ end HailVerif.Generated.SqlTimer
                     await g.execute_update(sql, args, qn)
                 return 'done'
 
+            def on_suspend(k):
+                # k-th time the operation's task hands control back to the event loop (a statement's round trip, the shielded
+                # commit / rollback, the back-off sleep between attempts, ...); 'cancel_at': cancel it at exactly that point
+                state['suspensions'] = k
+                if k == c.get('cancel_at'):
+                    asyncio.get_event_loop().call_soon(state['task'].cancel)
+
+            state['task'] = asyncio.ensure_future(aloop.stepped(single() if c.get('mode') == 'db' else op(), on_suspend))
             try:
-                r = await (single() if c.get('mode') == 'db' else op())
+                r = await state['task']
                 assert r == 'done'
                 out['result'] = 'ok'
-            except Exception as e:   # noqa: BLE001
+            except BaseException as e:   # noqa: BLE001
                 out['result'] = 'err:' + self.name_of(e)
-            await asyncio.sleep(0)
+            for _ in range(30):         # the shielded commit / rollback and the release of the connection finish on their own
+                await asyncio.sleep(0)
             await g.async_close()
 
         saved = fakepool.lost_connection_breaks_connection
+        saved_rt = fakepool.statements_are_round_trips
         fakepool.lost_connection_breaks_connection = break_connection
+        fakepool.statements_are_round_trips = True
         loop = aloop.VLoop()
         try:
             asyncio.set_event_loop(loop)
             loop.run_until_complete(asyncio.wait_for(main(), 100000))
         finally:
             fakepool.lost_connection_breaks_connection = saved
+            fakepool.statements_are_round_trips = saved_rt
             asyncio.set_event_loop(None)
             loop.close()
         out['attempts'] = state['attempt']
         out['commits'] = state['commits']
+        out['suspensions'] = state['suspensions']
         out['fired'] = state['fired']
         rows = {}
         for t in ('ta', 'tb'):
@@ -457,6 +523,13 @@ end HailVerif.Generated.SqlTimer
 
     def impl(self, c):
         o = self._run(c)
+        if c.get('cancel_at'):
+            # cancellation at the k-th suspension of the task: positions are those of the REAL code (round trips, shielded commit,
+            # back-off sleeps); the model has no notion of them -- these cases are judged by the oracle alone
+            if len(self._stepped) > 20000:
+                self._stepped.clear()
+            self._stepped[json.dumps(c, sort_keys=True)] = o
+            return []
         dbs = ','.join(f'{k}={v}' for k, v in sorted(o['db'].items()))
         return [f"attempts={o['attempts']} result={o['result']} db={dbs}"]
 
@@ -490,38 +563,60 @@ end HailVerif.Generated.SqlTimer
         init = {int(k): v for k, v in c['init'].items()}
         fired = {a: (idx, err) for a, idx, err in o['fired']}
         n = o['attempts']
+        stepped = bool(c.get('cancel_at'))
+        cancelled = o['result'] == 'err:base:0'
+        commit_idx = len(c['body']) + N_PRE
+        want_reads = []
+        expect, own_err = self.apply_body(c['init'], c['body'], want_reads)
+        # however the operation ended (returned, MySQL error, BaseException, cancellation): all of the body or nothing of it
+        if o['db'] != init and o['db'] != expect:
+            return (f'partial writes: the operation {"returned" if o["result"] == "ok" else "raised " + o["result"]} and left the tables '
+                    f'{o["db"] if len(o["db"]) < 8 else "..."}: neither the initial rows {init if len(init) < 8 else "..."} nor the whole body '
+                    f'applied once {expect if expect is None or len(expect) < 8 else "..."} (attempts={n}, COMMITs sent={o["commits"]}, fired={o["fired"]}'
+                    f'{", cancelled at suspension " + str(c["cancel_at"]) if stepped else ""})')
+        if stepped and o['result'] not in ['ok', 'err:base:0', 'err:' + str(own_err)] + ['err:' + f[2] for f in o['fired'] if f[2] not in TRANSIENT]:
+            return f'cancelling the task at its suspension {c["cancel_at"]} made the caller see {o["result"]} (fired={o["fired"]})'
         # one logical operation = one transaction: whatever was retried, exactly one COMMIT reaches the server when the call returns and
-        # none when it raises (a second committed transaction makes the writes of the first visible and durable on their own)
-        want_commits = 1 if o['result'] == 'ok' else 0
-        if o['commits'] != want_commits:
-            return (f'the operation {"returned" if o["result"] == "ok" else "raised " + o["result"]} after committing {o["commits"]} transactions '
-                    f'(connections taken: {n}, faults fired: {o["fired"]}); a transactional operation commits once as a whole or not at all; '
-                    f'tables afterwards {o["db"] if len(o["db"]) < 8 else "..."}')
+        # none when it raises (a second committed transaction makes the writes of the first visible and durable on their own).  The one
+        # failure that may follow a COMMIT is the cancellation of the calling task while that COMMIT is in flight (gear shields it).
+        if o['result'] == 'ok':
+            ok_commits = (1,)
+        elif cancelled and (stepped or (n in fired and fired[n] == (commit_idx, 'base:0'))):
+            ok_commits = (0, 1) if stepped else (1,)
+        else:
+            ok_commits = (0,)
+        if o['commits'] not in ok_commits:
+            return (f'the operation {"returned" if o["result"] == "ok" else "raised " + o["result"]} after sending {o["commits"]} COMMITs '
+                    f'(connections taken: {n}, faults fired: {o["fired"]}{", cancelled at suspension " + str(c["cancel_at"]) if stepped else ""}); '
+                    f'a transactional operation commits once as a whole, or not at all when it fails; '
+                    f'tables afterwards {o["db"] if len(o["db"]) < 8 else "..."}, initially {init if len(init) < 8 else "..."}')
         # retried <=> transient
         for a in range(1, n):
             if a not in fired:
                 return f'attempt {a} of {n} was retried although no injected error fired in it'
             if fired[a][1] not in TRANSIENT:
                 return f'attempt {a} failed with {fired[a][1]} at statement {fired[a][0]}, which is not a transient error, and was retried'
-        if n in fired:
+        if n in fired and not (stepped and cancelled):
             idx, err = fired[n]
             if err in TRANSIENT:
                 return f'the operation was not retried after transient error {err} at statement {idx} of attempt {n} (result {o["result"]})'
             if o['result'] != 'err:' + err:
                 return f'attempt {n} failed with {err} but the caller saw {o["result"]}'
-        want_reads = []
-        expect, own_err = self.apply_body(c['init'], c['body'], want_reads)
-        if n not in fired:
+        if n not in fired and not (stepped and cancelled):
             want = 'ok' if own_err is None else 'err:' + own_err
             if o['result'] != want:
                 return f'fault-free attempt {n}: caller saw {o["result"]}, expected {want}'
-        # atomicity
+        # atomicity: all (the COMMIT went out) or nothing
         if o['result'] == 'ok':
             if o['db'] != expect:
                 return f'after success the tables are {o["db"]}, expected the body applied exactly once: {expect} (attempts={n}, fired={o["fired"]})'
             if o['reads'] != want_reads:
                 return (f'after success the SELECTs of the committed attempt returned {o["reads"]}, one execution of the body on the initial rows '
                         f'reads {want_reads} (attempts={n}, fired={o["fired"]})')
+        elif o['commits'] == 1:
+            if o['db'] != expect:
+                return (f'cancelled while the COMMIT was in flight: the tables are {o["db"]}, expected the whole body applied: {expect} '
+                        f'(fired={o["fired"]})')
         elif o['db'] != init:
             return f'after giving up with {o["result"]} the tables are {o["db"]}, expected the initial rows {init} (fired={o["fired"]})'
         return None
@@ -529,12 +624,23 @@ end HailVerif.Generated.SqlTimer
     def classify(self, c, out):
         line = out[0] if out else ''
         tags = []
+        if c.get('cancel_at'):
+            o = self._stepped.get(json.dumps(c, sort_keys=True))
+            if o is not None:
+                tags.append('cancel-at-suspension:' + ('delivered' if o['result'] == 'err:base:0' else 'too-late' if o['result'] == 'ok' else 'after-error')
+                            + (':commit-sent' if o['commits'] else ''))
+                line = f"attempts={o['attempts']} result={o['result']}"
         if line.startswith('attempts='):
             a = int(line.split()[0].split('=')[1])
             tags.append(f'attempts={min(a, 4)}')
             r = a - 1       # every attempt but the last one was followed by a retry
             tags.append('consecutive-retries=' + (f'{r:02d}' if r <= 12 else '13-19' if r < 20 else '20-49' if r < 50 else '50-99' if r < 100 else '100+'))
             tags.append('result=' + ('ok' if 'result=ok' in line else 'err'))
+        for s in c['scripts']:
+            if s is not None and s[1] in BASE:
+                tags.append(('task-cancelled@' if s[1] == 'base:0' else 'BaseException@') +
+                            ('acquire' if s[0] == 0 else 'start' if s[0] == 1 else 'commit' if s[0] == len(c['body']) + N_PRE else
+                             'beyond' if s[0] > len(c['body']) + N_PRE else 'body-stmt-%d' % min(s[0] - N_PRE + 1, 4)))
         for s in c['scripts']:
             if s is not None:
                 n = len(c['body'])
@@ -562,6 +668,22 @@ end HailVerif.Generated.SqlTimer
 
     def shrink(self, c, fails):
         cur = dict(c)
+        # prefer a witness that shows partial writes over one that only shows a COMMIT too many: move the fault of the failing case
+        # to the later statements of the same body
+        if fails(cur) and 'partial writes' not in (self.oracle(cur, self.impl(cur)) or ''):
+            for i, sc in enumerate(cur['scripts']):
+                if sc is None:
+                    continue
+                for idx in range(N_PRE, len(cur['body']) + N_PRE):
+                    trial = {**cur, 'scripts': cur['scripts'][:i] + [[idx, sc[1]]] + cur['scripts'][i + 1:]}
+                    if 'partial writes' in (self.oracle(trial, self.impl(trial)) or '') and fails(trial):
+                        cur = trial
+                        break
+        if 'partial writes' in (self.oracle(cur, self.impl(cur)) or ''):
+            any_failure = fails
+
+            def fails(x):       # noqa: F811  keep showing partial writes while shrinking
+                return any_failure(x) and 'partial writes' in (self.oracle(x, self.impl(x)) or '')
         if fails(cur):
             cur['scripts'] = generic_shrink_list(cur['scripts'], lambda s: fails({**cur, 'scripts': s}))
             cur['body'] = generic_shrink_list(cur['body'], lambda b: fails({**cur, 'body': b})) if len(cur['body']) > 1 else cur['body']
